@@ -8,6 +8,7 @@ characters, otherwise every returned line has at most 32; the verdict is invaria
 """
 import itertools
 
+from mc import shared
 from mc.acc import Acc, h8
 from mc.ref import cea608 as C
 
@@ -103,7 +104,7 @@ def judge(doc, row_texts, klass):
     long_rows = [t for t in row_texts if len(t) > 32]
     v = []
     try:
-        cs = SCCReader().read(doc)
+        cs = shared.obj(SCCReader).read(doc)
         lines = []
         for c in cs.get_captions("en-US"):
             cur = ""
@@ -141,8 +142,29 @@ def mk(letter, n):
     return letter * n
 
 
+def reuse_items():
+    items = []
+    i = 0
+    for lens in itertools.product([1, 32, 33], repeat=2):
+        for mode in ("pop", "roll", "paint"):
+            texts = [mk(LETTERS[k], L) for k, L in enumerate(lens)]
+            if mode == "pop":
+                doc = popon_doc([[(1, texts[0]), (9, texts[1])]], 1 + i % 2, False)
+            elif mode == "roll":
+                doc = rollup_doc(2 + i % 3, texts, 1 + i % 2)
+            else:
+                doc = painton_doc([14, 15], texts, 1 + i % 2)
+            items.append((doc, texts, mode + "-reuse-run"))
+            i += 1
+    return items
+
+
+def reuse_eval(item):
+    return judge(*item)
+
+
 def shards(tier, seed):
-    sh = []
+    sh = [{"k": "reuse"}]
     rsets = ROWSETS if tier == "quick" else ROWSETS_T
     for rs in range(len(rsets)):
         for d in (1, 2):
@@ -161,6 +183,11 @@ def shards(tier, seed):
 def run_shard(d):
     acc = Acc()
     states = set()
+    if d["k"] == "reuse":
+        shared.run(acc, reuse_items(), reuse_eval, sample=lambda it: {"reuse_run_step": [it[2], [len(t) for t in it[1]]]})
+        res = acc.result()
+        res["extra"] = {"state_hashes": []}
+        return res
     tier = d.get("tier", "quick")
     LENGTHS = globals()["LENGTHS"] if tier == "quick" else LENGTHS_T  # noqa: N806
     ROWSETS = globals()["ROWSETS"] if tier == "quick" else ROWSETS_T  # noqa: N806
@@ -238,6 +265,8 @@ def finish(agg, tier, seed):
 
 
 def replay(case):
+    if case.get("reuse"):
+        return shared.replay(reuse_items(), reuse_eval, case["index"])
     k = case["k"]
     if k == "pop":
         groups = [[tuple(x) for x in g] for g in case["groups"]]
